@@ -7,6 +7,8 @@ PID = "C07"
 
 def scenarios(rng, tier):
     sc = T.fam_slots(rng) + T.fam_completion(rng) + T.fam_breach(rng)[:6] + T.fam_resubmit(rng)
+    # "only irrevocably resolved trackers are refunded": trackers dropped because their re-announcement after a reorg is rejected
+    sc += [x for x in T.fam_reorg(rng) if x["name"].endswith(("-conflict", "-dispute_gone")) and x["name"].startswith(("reorg-d1-", "reorg-d2-", "reorg-d3-"))]
     sc += T.fam_random(rng, 12 if tier == "quick" else 150)
     if tier == "thorough":
         for _ in range(5):
@@ -16,7 +18,7 @@ def scenarios(rng, tier):
     return sc
 
 
-RULE = 'blob sizes on both sides of every slot boundary (1, 2047, 2048, 2049, 4095, 4096, 4097, 6144, 6145 bytes; valid blobs of exactly 2048/2049/4096/4097), replacements up and down, exhaustion (S in {10,3,1,0}), triggers accepted / invalid / rejected, completion refunds, expiry, restarts; slots compared in memory (hook), on disk (users table) and on the wire (reply) at every step'
+RULE = 'blob sizes on both sides of every slot boundary (1, 2047, 2048, 2049, 4095, 4096, 4097, 6144, 6145 bytes; valid blobs of exactly 2048/2049/4096/4097), replacements up and down, exhaustion (S in {10,3,1,0}), triggers accepted / invalid / rejected, replacements of a held triggered appointment, trackers dropped after a rejected re-announcement (no refund), completion refunds, expiry, restarts; slots compared in memory (hook), on disk (users table) and on the wire (reply) at every step'
 
 
 def main(tier, replay=None):
